@@ -70,35 +70,7 @@ def run(prog, rep, tier, cfg):
         X.arg_has('K10', 'exec:create:id', c, 2, ['C:Runtime::transaction'], 'the created actor gets the id allocated in the state transaction')
     X.call_guard('K6a', 'exec:id-allocated-first', EX, cab, lambda c: (c.defp or '') == RUNTIME + 'transaction' and any(
         prog.reaches(x, pred_call=callee_is('State::map_addresses_to_id')) for x in c.cl), 'transaction(map_addresses_to_id)?')
-    CE = X.fn('can_exec', INIT)
-    cls = prog.closures_of(CE.id)
-    rep.need('K6b', 'can_exec:closure', len(cls) == 1, 'can_exec decides in one closure', X.loc(CE))
-    for cl in cls:
-        tb = true_blocks(cl)
-        sw = [c for c in conds(cl, prog.slicer) if c.kind == 'variant' and not c.place[1]]
-        ok = False
-        detail = 'no switch over the requested type'
-        if sw:
-            s = sw[0]
-            allowed = {T['Multisig'], T['PaymentChannel'], T['Miner']}
-            extra = [v for v in s.arms if v != 'otherwise' and v not in allowed and s.arms[v] != s.arms['otherwise']]
-            r = cl.reach([0], removed=[(s.bb, s.arms[v]) for v in s.arms if v in allowed])
-            ok = not (set(tb) & r) and not extra and allowed <= set(s.arms)
-            detail = 'true must be returned only for Multisig, PaymentChannel and Miner (extra arms: %s)' % extra
-            # Miner only if the caller is the power actor
-            if ok:
-                marm = s.arms[T['Miner']]
-                pw = [c for c in conds(cl, prog.slicer) if c.kind == 'rel' and has_atom(c.A | c.B, 'E:Type::Power') and has_atom(c.A | c.B, 'C:Runtime::resolve_builtin_actor_type')]
-                ok2 = False
-                for c in pw:
-                    t = match_rel(c, 'eq', [], [])
-                    if t is None:
-                        continue
-                    r2 = cl.reach([marm], removed=[(c.bb, c.arms[t])])
-                    if not (set(tb) & r2):
-                        ok2 = True
-                rep.need('K6b', 'can_exec:miner-only-by-power', ok2, 'the Miner arm must return true only when the caller resolves to Type::Power', X.loc(cl))
-        rep.need('K6b', 'can_exec:allowed-types', ok, detail, X.loc(cl))
+    exec_gates(prog, rep, X, T)
     E4 = X.fn('Actor::exec4', INIT)
     ca4 = [c for c in E4.calls if (c.defp or '') == RUNTIME + 'create_actor']
     existing_false = m_boolatoms(['C:Runtime::transaction'], False)
@@ -213,3 +185,37 @@ def run(prog, rep, tier, cfg):
     rep.need('K5', 'power:only-exec-sender', [s.c.fn.id for s in execs] == ['fil_actor_power::Actor::create_miner'], 'the only workspace sender of init.Exec is power.create_miner: %s' % [s.c.fn.id for s in execs])
     CM = X.fn('Actor::create_miner', 'fil_actor_power')
     X.value_from('K10', 'power:exec-miner-code', CM, X.agg_field_atoms(CM, 'ExecParams', 'code_cid', narrow=False), ['C:Runtime::get_code_cid_for_type', 'E:Type::Miner'], 'power execs the miner code')
+
+
+def exec_gates(prog, rep, X, T, prefix=''):
+    """who may Exec which code (accept-any method gated by hand; also evaluated under C11)"""
+    INIT = 'fil_actor_init'
+    CE = X.fn('can_exec', INIT)
+    cls = prog.closures_of(CE.id)
+    rep.need('K6b', prefix + 'can_exec:closure', len(cls) == 1, 'can_exec decides in one closure', X.loc(CE))
+    for cl in cls:
+        tb = true_blocks(cl)
+        sw = [c for c in conds(cl, prog.slicer) if c.kind == 'variant' and not c.place[1]]
+        ok = False
+        detail = 'no switch over the requested type'
+        if sw:
+            s = sw[0]
+            allowed = {T['Multisig'], T['PaymentChannel'], T['Miner']}
+            extra = [v for v in s.arms if v != 'otherwise' and v not in allowed and s.arms[v] != s.arms['otherwise']]
+            r = cl.reach([0], removed=[(s.bb, s.arms[v]) for v in s.arms if v in allowed])
+            ok = not (set(tb) & r) and not extra and allowed <= set(s.arms)
+            detail = 'true must be returned only for Multisig, PaymentChannel and Miner (extra arms: %s)' % extra
+            # Miner only if the caller is the power actor
+            if ok:
+                marm = s.arms[T['Miner']]
+                pw = [c for c in conds(cl, prog.slicer) if c.kind == 'rel' and has_atom(c.A | c.B, 'E:Type::Power') and has_atom(c.A | c.B, 'C:Runtime::resolve_builtin_actor_type')]
+                ok2 = False
+                for c in pw:
+                    t = match_rel(c, 'eq', [], [])
+                    if t is None:
+                        continue
+                    r2 = cl.reach([marm], removed=[(c.bb, c.arms[t])])
+                    if not (set(tb) & r2):
+                        ok2 = True
+                rep.need('K6b', prefix + 'can_exec:miner-only-by-power', ok2, 'the Miner arm must return true only when the caller resolves to Type::Power', X.loc(cl))
+        rep.need('K6b', prefix + 'can_exec:allowed-types', ok, detail, X.loc(cl))
